@@ -78,6 +78,12 @@ def cases(tier, rnd):
         cs.append(bytes(rnd.randrange(256) for _ in range(n)).hex())
     cs += ["f", "fe f0", " fef0", "fef0 ", "0x", "fe\n", "g0", "שש", "fe-0", "+f", "f" * 4097, "0" * 8191, "１２", "1_0", "fe\x00",
            "\ufb00", "0\ufb000", "fef0\ufb00", "\ufb00\ufb00", "\ufb03a", "\u212a0", "\u00df0", "a\u0300", "\u0661\u0662", "\uff41\uff42"]      # characters that case-fold or normalise into hex digits
+    # the way hex dumps are written elsewhere: separators between, before and after whole byte pairs (even and odd total lengths)
+    for base in ("fef0", "abcd", "00", FRAMES[0][:24]):
+        pairs = [base[i:i + 2] for i in range(0, len(base), 2)]
+        for sep in (" ", "  ", "\n", "\t", "\r\n", ":", "-", ",", "_", "\x0b", "\x0c", "\u00a0", "\u2003", "0x", "\\x"):
+            cs += [sep.join(pairs), sep + base, base + sep, sep + base + sep, sep * 2 + base, base + sep * 2, sep.join(pairs) + sep]
+    cs += [" ", "  ", "\t\n", "\n\n", " \n \n"]
     return cs
 
 def run_cases(stream, cs, out):
